@@ -41,11 +41,11 @@ type Req struct {
 	// >0 = cancelled that long after the call started.
 	CancelNs int64 `json:"cancel_ns,omitempty"`
 	// Uncond is the origin's answer to a request without If-None-Match/If-Modified-Since,
-	// Cond (optional) the answer to one that carries either. BgCond (optional) overrides Cond
-	// for calls not made on the caller's goroutine.
+	// Cond (optional) the answer to one that carries either. Bg (optional) overrides both
+	// for calls not made on the caller's goroutine (background revalidation).
 	Uncond Reply  `json:"uncond"`
 	Cond   *Reply `json:"cond,omitempty"`
-	BgCond *Reply `json:"bg_cond,omitempty"`
+	Bg     *Reply `json:"bg,omitempty"`
 }
 
 // Reply describes what the scripted origin does for one call.
